@@ -955,12 +955,12 @@ theorem k_ioCb (st : St) (s : PollSlot) : KStep st (ioCb st s) := by
   · exact KStep.refl _
 
 
-theorem k_ioLoop (fuel : Nat) : ∀ (st : St) (idx : Nat), KStep st (ioLoop fuel st idx) := by
+theorem k_ioLoopT (fuel : Nat) : ∀ (st : St) (idx : Nat), KStep st (ioLoopT fuel st idx).1 := by
   induction fuel with
-  | zero => intro st idx; unfold ioLoop; exact k_outOfFuel st
+  | zero => intro st idx; unfold ioLoopT; exact k_outOfFuel st
   | succ n ih =>
     intro st idx
-    unfold ioLoop
+    unfold ioLoopT
     split
     · exact KStep.refl _
     · split
@@ -971,6 +971,8 @@ theorem k_ioLoop (fuel : Nat) : ∀ (st : St) (idx : Nat), KStep st (ioLoop fuel
           · exact ih _ _
           · exact (k_ioCb _ _).trans (ih _ _)
 
+
+theorem k_ioLoop (fuel : Nat) (st : St) (idx : Nat) : KStep st (ioLoop fuel st idx) := k_ioLoopT fuel st idx
 
 theorem g3_foldl_raiseSig (l : List Int) : ∀ st : St, G3 st (l.foldl raiseSig st) := by
   induction l with
